@@ -46,6 +46,8 @@ def main():
     t0 = time.time()
     common.ensure_deps()
     common.import_repo()
+    from . import typefuzz
+    typefuzz.install()
     mod = _load(pid)
     if hasattr(mod, "setup"):
         mod.setup()
